@@ -428,7 +428,32 @@ func guardedEscapes(c *core.Ctx, lc *core.LockCache, el *entryLocks, rule string
 			if transferred {
 				continue
 			}
-			for _, u := range allUses(ld) {
+			// the loaded slice and what shares its backing array: re-slices of it and
+			// the results of appending to those (within capacity they are the same array)
+			derived := []ssa.Value{ld}
+			seenD := map[ssa.Value]bool{ld: true}
+			for k := 0; k < len(derived) && k < 32; k++ {
+				for _, u := range allUses(derived[k]) {
+					var nv ssa.Value
+					switch x := u.(type) {
+					case *ssa.Slice:
+						nv = x
+					case *ssa.Call:
+						if bi, ok := x.Call.Value.(*ssa.Builtin); ok && bi.Name() == "append" && len(x.Call.Args) > 0 && isSliceType(fld.Type()) {
+							nv = x
+						}
+					}
+					if nv != nil && !seenD[nv] && u.Parent() == fn {
+						seenD[nv] = true
+						derived = append(derived, nv)
+					}
+				}
+			}
+			var uses0 []ssa.Instruction
+			for _, dv := range derived {
+				uses0 = append(uses0, allUses(dv)...)
+			}
+			for _, u := range uses0 {
 				if u.Parent() != fn {
 					continue
 				}
